@@ -578,6 +578,22 @@ def run_effects(q, pid, rc, scratch, logdir, known, out):
         else:
             sample["verdict"] = "pass"
             out["nontrivial"] += 1
+            if q.native_flag == "--reopen-check":
+                # cross-check of the encoding: the native close/reopen experiment must agree with "all obligations hold";
+                # a difference it shows that no obligation explains means the encoding misses something -> not a pass
+                binary = build_replay(rc, logdir)
+                if binary:
+                    d = os.path.join(scratch, "opencheck")
+                    os.makedirs(d, exist_ok=True)
+                    pr = subprocess.run([binary, q.native_flag, d], stdout=subprocess.PIPE, stderr=subprocess.STDOUT, text=True)
+                    native = [l for l in pr.stdout.split("\n") if l.startswith("NATIVE")]
+                    sample["replay"] = {"exit": pr.returncode, "output": native[:12], "role": "cross-check of the encoding on this tree (72 native close/reopen experiments)"}
+                    if pr.returncode != 0:
+                        sample["verdict"] = "inconclusive"
+                        out["nontrivial"] -= 1
+                        out["inconclusive"].append("%s: every obligation holds on the explored paths but the native close/reopen experiment shows a difference (%s): the encoding does not explain it" % (q.name, "; ".join(native[:2])[:300]))
+                else:
+                    sample["replay_note"] = "native cross-check skipped: replay harness does not build against this tree"
         out["samples"].append(sample)
         return
     # native confirmation: concrete files for each obligation against the real crate
